@@ -60,6 +60,22 @@ CHECKS = {
     "C13": _db("transaction_mut closures of 1-4 queries that commit, abort on their own, or contain a failing query, and "
                "single queries failing after partial work: TLC requires the dump after a rollback to equal the state before "
                "it up to the order of properties/connections (SameUpToOrder).", "3.3, 3.5, 4 C13"),
+    "C14": _db("breadth-first / depth-first searches without conditions, forward and reverse, from node and edge origins on "
+               "random multigraphs with self-loops, parallel edges, cycles, removals and id reuse; TLC requires the recorded "
+               "result to EQUAL the reference traversal (DbSearch!Traverse) computed on the model state that the mutation "
+               "events built (adjacency newest-first, distance in element steps).", "3.4, 4 C14"),
+    "C15": _db("random condition trees (depth <= 3: node, edge, distance, edge counts, ids, keys, key-value comparisons incl. "
+               "cross-type values and contains/starts/ends, nested where, and/or, not/beyond/not-beyond) over random "
+               "property-bearing graphs, BFS and DFS both directions; TLC requires equality with DbSearch!EvalList-driven "
+               "traversal (the documented truth tables, type-strict comparisons).", "3.4, 4 C15"),
+    "C16": _db("every generated search is executed without slicing/ordering, with ordering only, and in full; TLC requires "
+               "ordered = a stable sort of the base result by the order-by keys (missing key last) and result = "
+               "Slice(ordered, offset, limit) with limits/offsets in 0..n+3 over BFS, DFS, path and elements searches; a "
+               "panic is a Panic event and rejects the trace.", "3.4, 4 C16"),
+    "C17": _db("path searches between random node pairs (and non-node / missing endpoints) under random condition sets; TLC "
+               "enumerates all usable node-simple alternating paths of the model state and requires the result to be the "
+               "passing elements of SOME minimum-cost path (cost 1 passing / 2 not passing / unusable where the conditions "
+               "stop), empty iff none exists.", "3.4, 4 C17"),
     "C18": _db("elements searches after histories with removals and id reuse: TLC requires the result to contain every live "
                "element exactly once in increasing id magnitude (InSlotOrder).", "3.4, 4 C18"),
 }
@@ -68,9 +84,9 @@ ENGINES = [
     {"name": "vstorage", "path": "harness/vstorage", "serves_properties": ["C01"],
      "kind_free_text": "Rust driver over the real storage layer with the fs hook; TLC for WalStorage/WalTrace"},
     {"name": "vdb", "path": "harness/vdb",
-     "serves_properties": ["C05", "C06", "C08", "C09", "C10", "C11", "C12", "C13", "C18"],
+     "serves_properties": ["C05", "C06", "C08", "C09", "C10", "C11", "C12", "C13", "C14", "C15", "C16", "C17", "C18"],
      "kind_free_text": "Rust driver recording query histories from the real database (all storage variants); "
-                       "TLC for DbModel/DbTrace/MCDb"},
+                       "TLC for DbModel/DbSearch/DbTrace/MCDb"},
 ]
 
 NOT_APPLICABLE = [
